@@ -9,11 +9,17 @@ import pin
 
 pid, header, imports = sys.argv[1:4]
 specs = [a for a in sys.argv[4:] if not a.startswith("--")]
+section = None
+if "--section" in sys.argv:
+    section = sys.argv[sys.argv.index("--section") + 1]
+    specs = [a for a in specs if a != section]
 extra = None
 if "--examples" in sys.argv:
     extra = open(sys.argv[sys.argv.index("--examples") + 1]).read()
 out = [f"(* {pid} — {header}\n   Statements only: each theorem is closed by `exact` of a lemma proved in the *_proofs.v files. *)", imports, ""]
 names = []
+if section:
+    out.append(f"Section {pid}_statements.\n{section}\n")
 for sp in specs:
     if sp == "--examples" or (extra is not None and sp == sys.argv[sys.argv.index("--examples") + 1]):
         continue
@@ -30,6 +36,8 @@ for sp in specs:
             raise SystemExit(f"{n}: binder-style statements are not supported, restate with forall")
         out.append(f"Theorem {pid}_{n} {stmt}.\nProof. exact {n}. Qed.\n")
         names.append(f"{pid}_{n}")
+if section:
+    out.append(f"End {pid}_statements.\n")
 if extra:
     out.append(extra)
 out += [f"Print Assumptions {n}." for n in names]
